@@ -229,15 +229,25 @@ class Ctx:
         A failed or timed-out proof is a statement about the specification, never about the code: exit 2."""
         d = self._specdir()
         e = dict(self.env)
-        cmd = ["tlapm", "--threads", str(threads), "--cleanfp", module + ".tla"]
-        self.checker_cmds.append(" ".join(cmd))
-        try:
-            r = subprocess.run(cmd, cwd=d, env=e, capture_output=True, text=True, timeout=timeout)
-        except subprocess.TimeoutExpired:
-            raise Undecided("tlapm timed out on " + module)
-        txt = r.stdout + r.stderr
-        m = re.search(r"All (\d+) obligations? proved", txt)
-        shutil.rmtree(os.path.join(d, ".tlacache"), ignore_errors=True)
+        m, txt = None, ""
+        for stretch in (1, 6):   # a loaded machine can make a back end run out of its time slice: one retry with longer time-outs
+            cmd = ["tlapm", "--threads", str(threads), "--cleanfp"] + (["--stretch", str(stretch)] if stretch > 1 else []) + [module + ".tla"]
+            self.checker_cmds.append(" ".join(cmd))
+            pr = subprocess.Popen(cmd, cwd=d, env=e, stdout=subprocess.PIPE, stderr=subprocess.STDOUT, text=True, start_new_session=True)
+            try:
+                txt, _ = pr.communicate(timeout=timeout * stretch)
+            except subprocess.TimeoutExpired:
+                import signal
+                try:
+                    os.killpg(pr.pid, signal.SIGKILL)   # the back-end provers are children of tlapm
+                except OSError:
+                    pass
+                pr.communicate()
+                continue
+            m = re.search(r"All (\d+) obligations? proved", txt)
+            shutil.rmtree(os.path.join(d, ".tlacache"), ignore_errors=True)
+            if m:
+                break
         if not m:
             keep = [l for l in txt.split("\n") if not l.startswith(("Called from", "Raised at"))]
             raise Undecided("tlapm could not check the proofs of %s:\n%s" % (module, "\n".join(keep)[-1500:]))
